@@ -17,8 +17,10 @@
           differs from the model's first line; 7 monitor: a line overflows although it has a
           break opportunity; 8 monitor: break at a forbidden position; 9 monitor: lines do not
           stack; 10 malformed case (projection failed); 11 x / width of a line box;
-          21-23 known findings described exactly by a variant of the model; 101-103 the input
-          has the structural trigger of a known finding (see t_space_limit / t_glued). *)
+          21-23 known findings described exactly by a variant of the model; 101-107 = 100 +
+          flags: the input has the structural trigger of a known finding (1 t_space_limit,
+          2 t_glued, 4 t_nested) AND the vertical geometry of the implementation's own lines
+          is right (vert_ok; otherwise 4). *)
 From Verif Require Export Layout.LineBreak.
 From Coq Require Import List ZArith QArith Qminmax Qabs Bool NArith.
 Import ListNotations.
@@ -188,13 +190,14 @@ Definition v_br (l : list item) : list item := v_br_from false l.
    list and container width, never from what the implementation returned).  A disagreement
    on an input that has a trigger is reported under code 100 + flags, so that the matchers of
    those findings (known_findings.json: code + symptom tag) accept nothing that lacks the
-   construct the defect needs.
+   construct the defect needs.  Flags: 1 t_space_limit, 2 t_glued, 4 t_nested (each finding's
+   matcher = a code holding its flag + its own symptom tag).
    t_space_limit (flag 1): in the model's own partition some line ends with a collapsible
            space that ends its text node (the next item is not a Word) and that does not fit
            in the room left: the situation in which text.SplitFirstLine reports a break at
            the very end of the text or silently drops the space (findings
            C11/space-at-limit-... ).
-   t_ow (flag 2): t_glued: a unit holds emergency break opportunities (overflow-wrap) together
+   t_glued (flag 2) / t_nested (flag 4): t_glued: a unit holds emergency break opportunities (overflow-wrap) together
            with content of another box (a second text, an atomic inline): the implementation
            only breaks a word in an emergency when its text box starts the line
            (inline.go:623 isLineStart); or nested_start (below).  Finding
@@ -264,10 +267,20 @@ Definition t_glued (cf : cfg) (items : list item) : bool :=
    a regular break opportunity is broken in the middle of the line.  Trigger: a cut position
    inside a top-level inline box, after some content of that box, followed by a breakable
    word. *)
+(* (the emergency opportunity that follows the first glyph may lie behind inline-box edges:
+   `e</span>NALlz` is one unbreakable sequence, go/cmd/c11 crossBoxEB puts its EB after the
+   Closes) *)
+Fixpoint eb_after_edges (suf : list item) : bool :=
+  match suf with
+  | Open _ :: r | Close _ :: r => eb_after_edges r
+  | EB :: _ => true
+  | _ => false
+  end.
+
 Fixpoint breakable_next (suf : list item) : bool :=
   match suf with
   | Open _ :: r => breakable_next r
-  | Word _ :: EB :: _ => true
+  | Word _ :: r => eb_after_edges r
   | _ => false
   end.
 
@@ -299,9 +312,31 @@ Definition t_nested (cf : cfg) (items : list item) : bool :=
 
 Definition t_ow (cf : cfg) (items : list item) : bool := t_glued cf items || t_nested cf items.
 
+(* ---- vertical geometry, INDEPENDENT of the line partition (theorems C11_lines_stack,
+   C11_line_height_atomics): the first line starts at the top of the content box, every
+   line starts where the previous one ends, and the height of a line is line_height of the
+   atomic inlines whose boxes are on it (the k-th atomic box is the k-th Atomic item; no
+   atomic: the strut alone, i.e. line-height).  A disagreement of this kind is reported
+   as code 4 whatever structural trigger of a known finding the input has: none of the
+   known findings below touches heights. *)
+Definition is_fa_frag (f : frag) : bool := match f with FA _ _ => true | FT _ _ => false end.
+
+Fixpoint vert (cf : cfg) (y : Q) (ats : list item) (out : list oline) : bool :=
+  match out with
+  | [] => true
+  | o :: r =>
+      let n := length (filter is_fa_frag (ofr o)) in
+      Qeq_bool (oy o) y && Qeq_bool (oh o) (line_height cf (firstn n ats))
+      && vert cf (y + oh o)%Q (skipn n ats) r
+  end.
+
+Definition vert_ok (cf : cfg) (items : list item) (out : list oline) : bool :=
+  vert cf (y0 cf) (filter is_atomic_item items) out.
+
 Definition para_check (cf : cfg) (items : list item) (out : list oline) : N :=
   let k := lines_cmp (layout cf items) out in
   if N.eqb k 0 || N.eqb k 2 then k
+  else if negb (vert_ok cf items out) then 4%N
   else
     let k1 := lines_cmp (layout cf (v_lead true items)) out in
     let k2 := lines_cmp (layout cf (v_br items)) out in
@@ -311,9 +346,13 @@ Definition para_check (cf : cfg) (items : list item) (out : list oline) : N :=
     else if N.eqb k3 0 then 23%N
     else if N.eqb k1 2 || N.eqb k2 2 || N.eqb k3 2 then 2%N   (* a variant is inexact: undecided *)
     else
-      (* (the start edges that C11/lead-space-in-span-drops-start-edge removes change what fits) *)
-      let f := ((if t_space_limit cf items || t_space_limit cf (v_lead true items) then 1 else 0)
-                + (if t_ow cf items then 2 else 0))%N in
+      (* (the start edges that C11/lead-space-in-span-drops-start-edge removes and the space
+         that C11/space-before-br-kept keeps change what fits: a trigger counts when the
+         input or one of its variants has it) *)
+      let vs := [items; v_lead true items; v_br items; v_br (v_lead true items)] in
+      let f := ((if existsb (t_space_limit cf) vs then 1 else 0)
+                + (if existsb (t_glued cf) vs then 2 else 0)
+                + (if existsb (t_nested cf) vs then 4 else 0))%N in
       if N.eqb f 0 then k else (100 + f)%N.
 
 Definition check (c : case) : N :=
